@@ -20,6 +20,9 @@ Inductive reach (g : config) : nat -> nat -> Prop :=
 Definition to_nil (g : config) (a : nat) : Prop :=
   exists y hk, reach g a y /\ get_hook g y = Some hk /\ forwarded y hk = true /\ h_rh hk = None.
 
+(* a non-empty path: p forwards to r, and cur is reachable from r *)
+Definition path1 (g : config) (p cur : nat) : Prop := exists r, fwd g p r /\ reach g r cur.
+
 (* ---- counting *)
 Definition wtok (h : nat) (c : client) : Z := if oeqb (c_tgt c) (Some h) then 1 else 0.
 (* number of live client references accounted at hook h *)
@@ -92,7 +95,7 @@ Record InvF (g : config) : Prop := {
   (* a Fulfill in its transfer walk holds the promise hook's mutex and carries its references *)
   inv_flight : forall t p n c cur, pc_of g t (FWalk p n c cur) ->
       exists hk, get_hook g p = Some hk /\ h_mu hk = Some t /\ h_refs hk = 0 /\ tokens g p = n /\
-                 0 < n /\ forwarded p hk = true /\ reach g p cur /\ borrow_ok g c (Some cur);
+                 0 < n /\ forwarded p hk = true /\ path1 g p cur /\ borrow_ok g c (Some cur);
   inv_fmark : forall t p rh c, pc_of g t (FMark p rh c) -> borrow_ok g c rh
 }.
 
